@@ -39,6 +39,7 @@ type Closure struct {
 
 type Obligation struct {
 	Name    string // unique within the run
+	Auto    string // candidate invariant name (auto-invariants): a failing step drops the candidate
 	Kind    string // post, pre, inv-entry, inv-step, decreases, safety, frame, assert, lemma, cover
 	Tag     string // property tag or ""
 	Func    string
@@ -108,6 +109,14 @@ type loopInfo struct {
 	headState *State
 	headPhis  map[*ssa.Phi]V
 	measure0  string
+	autoInv   []autoCand
+}
+
+type autoCand struct {
+	phi   *ssa.Phi
+	op    string
+	bound string
+	name  string
 }
 
 type Exec struct {
@@ -118,6 +127,8 @@ type Exec struct {
 	notes     []string // abstractions in force (reported in evidence)
 	noteSet   map[string]bool
 	maxDepth  int
+	dropAuto  map[string]bool
+	dispatchDepth int
 	stack     []*ssa.Function
 	noDefine  int
 	errGlobals []string
@@ -271,8 +282,27 @@ func (x *Exec) valueInv(st *State, t types.Type, term string) string {
 		inv = and(inv, "(<= "+term+" "+st.alloc+")")
 	case *types.Slice:
 		inv = and(inv, "(<= (s_base "+term+") "+st.alloc+")")
+		// the backing array of a slice is one allocation: its size in bytes fits an int
+		// (the Go runtime refuses larger allocations), so cap*sizeof(elem) <= MaxInt64
+		if k := elemSize(t.Underlying().(*types.Slice).Elem()); k > 1 {
+			inv = and(inv, fmt.Sprintf("(<= (* %d (s_cap %s)) 9223372036854775807)", k, term))
+		}
 	}
 	return inv
+}
+
+var gcSizes = types.SizesFor("gc", "amd64")
+
+func elemSize(t types.Type) (k int64) {
+	defer func() {
+		if recover() != nil {
+			k = 0
+		}
+	}()
+	if _, isTP := t.(*types.TypeParam); isTP {
+		return 0
+	}
+	return gcSizes.Sizeof(t)
 }
 
 func (x *Exec) storePlace(st *State, p *Place, v string) {
@@ -786,6 +816,127 @@ func (x *Exec) loopHead(fr *Frame, li *loopInfo, entry *State, phiEntry map[*ssa
 		fr.vals[phi] = v
 		li.headPhis[phi] = v
 	}
+	// 3a. candidate invariants (auto-invariants), for integer loop variables v:
+	//   v >= c      when v enters the loop with the constant c
+	//   v < N, v <= N   when the loop compares v (or v+const) with N, N fixed during the loop
+	// Each candidate must hold on entry and is checked at every back edge; candidates that fail
+	// either are dropped and the function is regenerated (verifyFunc).
+	li.autoInv = nil
+	if fr.contract != nil && fr.contract.AutoInv {
+		var phis []*ssa.Phi
+		for phi := range phiEntry {
+			phis = append(phis, phi)
+		}
+		sort.Slice(phis, func(i, j int) bool { return phis[i].Pos() < phis[j].Pos() || (phis[i].Pos() == phis[j].Pos() && phis[i].Name() < phis[j].Name()) })
+		addCand := func(phi *ssa.Phi, suffix, op, bound string) {
+			name := fmt.Sprintf("%s#loop%d.auto.%s.%s", fname, li.ordinal, strings.TrimPrefix(phiName(phi), "v_"), suffix)
+			if x.dropAuto[name] {
+				return
+			}
+			for _, c := range li.autoInv {
+				if c.name == name {
+					return
+				}
+			}
+			ev := phiEntry[phi]
+			if ev.S == "" {
+				return
+			}
+			x.addObl(&Obligation{Name: name + ".entry", Kind: "inv-entry", Auto: name, Func: fname, Pos: x.prog.pos(li.minPos), Guard: entry.guard,
+				Formula: "(" + op + " " + x.toMathInt(ev) + " " + bound + ")", Src: "candidate invariant (auto-invariants): " + strings.TrimPrefix(phiName(phi), "v_") + " " + op + " " + bound})
+			li.autoInv = append(li.autoInv, autoCand{phi: phi, op: op, bound: bound, name: name})
+			x.assume(head.guard, "("+op+" "+x.toMathInt(fr.vals[phi])+" "+bound+")")
+		}
+		for _, phi := range phis {
+			if _, _, ok := intInfo(phi.Type()); !ok {
+				continue
+			}
+			var c0 *ssa.Const
+			for ei, e := range phi.Edges {
+				pred := li.head.Preds[ei]
+				if li.blocks[pred] && li.head.Dominates(pred) {
+					continue
+				}
+				k, ok := e.(*ssa.Const)
+				if !ok || k.Value == nil || k.Value.Kind() != constant.Int || (c0 != nil && c0.Value.ExactString() != k.Value.ExactString()) {
+					c0 = nil
+					break
+				}
+				c0 = k
+			}
+			if c0 != nil {
+				addCand(phi, "lo", ">=", x.toMathInt(x.constVal(c0)))
+			}
+		}
+		// upper bounds from comparisons inside the loop
+		phiOf := func(v ssa.Value) *ssa.Phi {
+			if b, ok := v.(*ssa.BinOp); ok && (b.Op == token.ADD || b.Op == token.SUB) {
+				if _, isC := b.Y.(*ssa.Const); isC {
+					v = b.X
+				}
+			}
+			if p, ok := v.(*ssa.Phi); ok && p.Block() == li.head {
+				if _, tracked := phiEntry[p]; tracked {
+					return p
+				}
+			}
+			return nil
+		}
+		fixedTerm := func(v ssa.Value) string {
+			if _, _, ok := intInfo(v.Type()); !ok {
+				return ""
+			}
+			if definedOutside(v, li) {
+				val := x.value(fr, v)
+				if val.S == "" {
+					return ""
+				}
+				return x.toMathInt(val)
+			}
+			if c, ok := v.(*ssa.Call); ok {
+				if b, isB := c.Call.Value.(*ssa.Builtin); isB && b.Name() == "len" && definedOutside(c.Call.Args[0], li) {
+					if _, isSl := c.Call.Args[0].Type().Underlying().(*types.Slice); isSl {
+						if a := x.value(fr, c.Call.Args[0]); a.S != "" {
+							return "(s_len " + a.S + ")"
+						}
+					}
+				}
+			}
+			return ""
+		}
+		var blocks []*ssa.BasicBlock
+		for b := range li.blocks {
+			blocks = append(blocks, b)
+		}
+		sort.Slice(blocks, func(i, j int) bool { return blocks[i].Index < blocks[j].Index })
+		nb := 0
+		for _, b := range blocks {
+			for _, in := range b.Instrs {
+				cmp, ok := in.(*ssa.BinOp)
+				if !ok || (cmp.Op != token.LSS && cmp.Op != token.LEQ && cmp.Op != token.GTR && cmp.Op != token.GEQ) {
+					continue
+				}
+				for _, pr := range [][2]ssa.Value{{cmp.X, cmp.Y}, {cmp.Y, cmp.X}} {
+					phi := phiOf(pr[0])
+					if phi == nil {
+						continue
+					}
+					bound := fixedTerm(pr[1])
+					if bound == "" {
+						continue
+					}
+					nb++
+					// `v < N` as the guard of a loop that steps v leaves v <= N at the head;
+					// `v+c < N` (range loops test the incremented index) leaves v < N
+					if _, direct := pr[0].(*ssa.Phi); direct {
+						addCand(phi, fmt.Sprintf("le%d", nb), "<=", bound)
+					} else {
+						addCand(phi, fmt.Sprintf("lt%d", nb), "<", bound)
+					}
+				}
+			}
+		}
+	}
 	// 3. assume invariants
 	if lc != nil {
 		for _, inv := range lc.Invariants {
@@ -817,7 +968,7 @@ func (x *Exec) loopLatch(fr *Frame, li *loopInfo, latch *ssa.BasicBlock, st *Sta
 	fname := funcKey(fr.fn)
 	// dynamic soundness check of the syntactic mod set
 	x.checkLoopMods(fr, li, st)
-	if lc == nil {
+	if lc == nil && len(li.autoInv) == 0 {
 		return
 	}
 	idx := -1
@@ -840,6 +991,33 @@ func (x *Exec) loopLatch(fr *Frame, li *loopInfo, latch *ssa.BasicBlock, st *Sta
 	}
 	for phi, v := range next {
 		fr.vals[phi] = v
+	}
+	for _, ac := range li.autoInv {
+		x.addObl(&Obligation{Name: ac.name + ".step", Kind: "inv-step", Auto: ac.name,
+			Func: fname, Pos: x.prog.pos(li.minPos), Guard: cond, Formula: "(" + ac.op + " " + x.toMathInt(next[ac.phi]) + " " + ac.bound + ")", Src: "candidate invariant (auto-invariants): " + strings.TrimPrefix(phiName(ac.phi), "v_") + " " + ac.op + " " + ac.bound})
+	}
+	if lc == nil {
+		for phi, v := range saved {
+			fr.vals[phi] = v
+		}
+		return
+	}
+	if len(lc.Latch) > 0 {
+		// evaluated with the iteration's own values (not the next iteration's)
+		for phi, v := range saved {
+			fr.vals[phi] = v
+		}
+		for i, la := range lc.Latch {
+			f := x.evalClause(fr, la, st, latch, nil)
+			name := fmt.Sprintf("%s#loop%d.latch%d", fname, li.ordinal, i+1)
+			if la.Tag != "" {
+				name = fmt.Sprintf("%s#%s@loop%d", fname, la.Tag, li.ordinal)
+			}
+			x.addObl(&Obligation{Name: name, Kind: "assert", Tag: la.Tag, Func: fname, Pos: x.prog.pos(li.minPos), Guard: cond, Formula: f, Src: la.Src})
+		}
+		for phi, v := range next {
+			fr.vals[phi] = v
+		}
 	}
 	for i, inv := range lc.Invariants {
 		f := x.evalClause(fr, inv, st, li.head, nil)
